@@ -160,7 +160,7 @@ func verifHarness_C09_converge() {
 	shard := history.ClusterShardID{ClusterID: 2, ShardID: 1}
 	key := ClusterShardIDtoShortString(shard)
 	// every instance claims the shard (a stream for it connects there); the claims race
-	nClaims := nInst
+	nClaims := verifParam("claimers", nInst)
 	for i := 0; i < nClaims; i++ {
 		in := w.insts[i]
 		verifAction("claim")
